@@ -88,7 +88,8 @@ Inductive ckind :=
 | KBreakLocks | KBreakOutside | KBranches | KLoopNeutral | KSwitchNeutral | KDeferInLoop | KDeferInSwitch
 | KReturnHeld | KGoHeld | KGoHolding | KLiteralNeutral | KReqAcqOverlap
 | KUndefinedCallee | KDuplicateName | KEntryRequires | KLiteralCallee | KUnsupported
-| KCheckThenAct.                                                             (* subject: the field *)   (* program-level *)
+| KCheckThenAct                                                              (* subject: the field *)
+| KUnauditedConcurrency.                                                     (* subject: the construct: go / wait:... *)   (* program-level *)
 Definition complaint := (ckind * string)%type.
 Notation "a +++ b" := (@List.app complaint a b) (at level 60, right associativity).
 
@@ -267,7 +268,7 @@ Definition ckind_eqb (a b : ckind) : bool :=
   | KLoopNeutral, KLoopNeutral | KSwitchNeutral, KSwitchNeutral | KDeferInLoop, KDeferInLoop | KDeferInSwitch, KDeferInSwitch
   | KReturnHeld, KReturnHeld | KGoHeld, KGoHeld | KGoHolding, KGoHolding | KLiteralNeutral, KLiteralNeutral | KReqAcqOverlap, KReqAcqOverlap
   | KUndefinedCallee, KUndefinedCallee | KDuplicateName, KDuplicateName | KEntryRequires, KEntryRequires
-  | KLiteralCallee, KLiteralCallee | KUnsupported, KUnsupported | KCheckThenAct, KCheckThenAct => true
+  | KLiteralCallee, KLiteralCallee | KUnsupported, KUnsupported | KCheckThenAct, KCheckThenAct | KUnauditedConcurrency, KUnauditedConcurrency => true
   | _, _ => false
   end.
 Definition complaint_eqb (a b : complaint) : bool := ckind_eqb (fst a) (fst b) && String.eqb (snd a) (snd b).
@@ -463,4 +464,21 @@ End CTA.
 Definition cta_program (C : contracts) (pr : program) : list (string * list complaint) :=
   let summ := rw_summary 8 C pr [] in
   flat_map (fun fb => match dedup_c (cr_c (cta C summ (snd fb) (ct_init (requires C (fst fb))))) with
+                      | [] => [] | w => [(fst fb, w)] end) pr.
+
+
+(* ================= concurrency constructs (goroutine starts, blocking waits that are not mutex operations) =================
+   Every (function, construct) pair of the program must be on an audited list (Contracts.audited_concurrency): a new `go`
+   statement, channel operation, WaitGroup / Cond wait in the library is a change the lock language cannot judge by itself
+   (it does not model who signals whom), so it breaks this obligation and sends the check searching for a call that hangs. *)
+Fixpoint constructs (p : prog) : list string :=
+  match p with
+  | PAct (User k) | PDefer (User k) => if String.prefix "wait:" k then [k] else []
+  | PGo p => "go"%string :: constructs p
+  | PSeq p q | PAlt p q => constructs p ++ constructs q
+  | PLoop p | PBlock p | PLoop1 p => constructs p
+  | _ => []
+  end.
+Definition unaudited (audited : list (string * string)) (pr : program) : list (string * list complaint) :=
+  flat_map (fun fb => match dedup_c (flat_map (fun c => if mem2 (fst fb) c audited then [] else [(KUnauditedConcurrency, c)]) (constructs (snd fb))) with
                       | [] => [] | w => [(fst fb, w)] end) pr.
